@@ -260,12 +260,13 @@ def run(ctx, chk):
         chk.missing('C13.P7', 'main of the daemon / thread manager')
     else:
         chk.saw(mb)
-        ix = [i for i in range(1, tmb.argc + 1) if 'PhcInfo' in tmb.tystr(tmb.locals[i]['ty'])]
-        if not ix:
+        slot7 = common.manager_slot(fb, tmb, lambda ts: 'PhcInfo' in ts and ts.startswith('std::option::Option<'))
+        if slot7 is None:
             chk.missing('C13.P7', 'PHC configuration parameter of the thread manager')
         else:
-            ix = ix[0] - 1
-            e7 = common.mk_engine(fb, no_inline=lambda x: x.crate.kind != 'bin')
+            ix, proj7 = slot7
+            cfg7 = set(common.slot_types(fb, tmb, slot7))
+            e7 = common.mk_engine(fb, no_inline=lambda x: x.crate.kind != 'bin' and x.tystr(x.locals[0]['ty']) not in cfg7)
             n7 = 0
             for p in e7.run(mb):
                 if p.kind == 'unreachable':
@@ -278,7 +279,7 @@ def run(ctx, chk):
                 for ef in p.effects:
                     if ef['kind'] == 'call' and ef['callee'] == tmb.path:
                         n7 += 1
-                        v = ef['args'][ix]
+                        v = e7.project(ef['args'][ix], proj7)
                         both = len(opts) >= 2 and all(opts.values())
                         if both:
                             ok7 = v[0] == 'agg' and v[2] == 'Some' and v[3] and v[3][0][0] == 'agg' and 'PhcInfo' in v[3][0][1]
